@@ -324,10 +324,45 @@ def _model_immutable(ctx, rule):
     return c10.r6_model_immutable(ctx, rule)
 
 
+def r10_no_unsaved_memory(ctx, rule):
+    """What the Markov loop emits next depends only on the generator (pickled into the .omn file) and on options stored in the
+    .sav file.  A container created inside omen_generate_guesses / restore_omen that the loop both fills and consults (a "seen"
+    set, a window of recent guesses) is memory of the process: the resumed call starts with it empty, so it repeats or skips
+    strings relative to the uninterrupted run (seed C15-i: --all_lower de-duplication with a local set)."""
+    from .common import builds_mutable, _MUTATORS
+    n = 0
+    bad = False
+    for name in ('omen_generate_guesses', 'restore_omen'):
+        q = PG + name
+        fn = ctx.fn(q)
+        n += 1
+        stores = stores_in(fn)
+        mem = {nm for nm, lst in stores.items() if any(v is not None and builds_mutable(v) for st, v in lst)}
+        for lp in [x for x in walk_local(fn) if isinstance(x, (ast.While, ast.For))]:
+            filled, consulted = {}, {}
+            for x in ast.walk(lp):
+                if isinstance(x, ast.Call) and isinstance(x.func, ast.Attribute) and x.func.attr in _MUTATORS \
+                        and isinstance(x.func.value, ast.Name) and x.func.value.id in mem:
+                    filled[x.func.value.id] = x
+                if isinstance(x, ast.Subscript) and isinstance(x.ctx, ast.Store) and isinstance(x.value, ast.Name) and x.value.id in mem:
+                    filled[x.value.id] = x
+                if isinstance(x, (ast.If, ast.While, ast.IfExp)):
+                    for y in ast.walk(x.test):
+                        if isinstance(y, ast.Name) and y.id in mem:
+                            consulted[y.id] = x
+            for nm in sorted(set(filled) & set(consulted)):
+                bad = True
+                ctx.bad(rule, q, 'the loop fills and consults the local container %s: %s' % (nm, U(consulted[nm].test)[:60]),
+                        'this memory exists only in the running process: it is neither in the .sav nor in the .omn file, so the resumed '
+                        'call starts without it and repeats (or skips) strings the uninterrupted run would not', None, consulted[nm])
+    if ctx.floor(rule, PG + 'omen_generate_guesses', n, 2, 'Markov emission functions') and not bad:
+        ctx.ok(rule, PG + 'omen_generate_guesses', 'the Markov emission loop keeps no memory of its own between guesses')
+
+
 def rules(tier):
     return [('C15.R1', r1_one_shot_key), ('C15.R2', r2_no_generated_unemitted), ('C15.R3', r3_pickle_layout),
             ('C15.R4', r4_omen_exit_writers), ('C15.R5', lambda c, r: c08.r5_sav_keys(c, r, sections=('guessing_info',), floor=3)),
-            ('C15.R6', r6_omen_call_sites), ('C15.R7', _model_immutable), ('C15.R8', r8_model_order), ('C15.R9', r9_session_file_names)]
+            ('C15.R6', r6_omen_call_sites), ('C15.R7', _model_immutable), ('C15.R8', r8_model_order), ('C15.R9', r9_session_file_names), ('C15.R10', r10_no_unsaved_memory)]
 
 
 META = {
